@@ -371,16 +371,20 @@ def part_setup_restart(chk):
             named = rng.random() < 0.5
             folder = os.path.join(work, 'run%d' % it) if named else None
             t_save = rng.choice([0, 7, 120])
+            save_root = rng.randrange(nranks - (1 if plot else 0)) if rng.random() < 0.6 else 0     # the process that creates / announces the folder
 
             def body_write():
                 # a run without plot-only rank sets up, announces/creates its folder and writes a checkpoint
                 comm = MPI.COMM_WORLD
                 grid, constants, t = setupCylindricalGrid(npts=npts, layout=lay, comm=comm, allocateSaveMemory=True, eps=0.1)
-                f = setupSave(constants, folder, comm)
-                # the broadcast is the only synchronisation between the root and the others: a rank that has the name uses the folder at once
-                if not os.path.isdir(f):
+                f = setupSave(constants, folder, comm, save_root)
+                # when the root chooses the name, the broadcast is the synchronisation between the root and the others: a rank that has
+                # received the name uses the folder at once.  (With a name given by the caller nothing synchronises the ranks inside
+                # setupSave; the next use of the folder is the collective creation of the checkpoint file.)
+                if folder is None and not os.path.isdir(f):
                     raise FileNotFoundError('rank %d: setupSave returned the folder %r but it does not exist yet' % (comm.Get_rank(), os.path.basename(f)))
-                open(os.path.join(f, 'rank_%d.log' % comm.Get_rank()), 'w').close()
+                if folder is None:
+                    open(os.path.join(f, 'rank_%d.log' % comm.Get_rank()), 'w').close()
                 grid.writeH5Dataset(f, t_save)
                 return f
 
@@ -406,7 +410,8 @@ def part_setup_restart(chk):
                 return (os.path.basename(f), int(t2), lo is not None, hi is not None)
             nw = nranks - (1 if plot else 0)
             fname = [None]
-            case = {'nranks': nranks, 'plotThread': plot, 'drawRank': draw, 'npts': npts, 'layout': lay, 'folder_given': named, 'time': t_save}
+            case = {'nranks': nranks, 'plotThread': plot, 'drawRank': draw, 'npts': npts, 'layout': lay, 'folder_given': named, 'time': t_save,
+                    'setupSave_root': save_root}
             for d in os.listdir(work):
                 if d.startswith('simulation_'):
                     shutil.rmtree(os.path.join(work, d), ignore_errors=True)
